@@ -345,9 +345,21 @@ def streamGetSpec (sfix : Bool) (f : File) (unc : Codec) (bs : Nat) (tbl : List 
   let r := streamGet sfix f unc d0 s
   (r.1, r.2.1)
 
-/-! ### histories -/
+/-! ### histories
+
+`Op`/`step`/`run` are the histories of positional reads only (also used, read-only, by C19's `Sqfs.C19R`);
+`OpX`/`stepX`/`runX` the histories over every entry point that touches the caches (`runX_embed` relates them). -/
 
 inductive Op where
+  | read (ino : Inode) (offset size : Nat)
+deriving DecidableEq, Repr
+
+def step (kw : Bool) (f : File) (unc : Codec) (d : DR) : Op → DR
+  | .read ino o n => (read kw f unc d ino o n).2
+
+def run (kw : Bool) (f : File) (unc : Codec) (d : DR) (h : List Op) : DR := h.foldl (step kw f unc) d
+
+inductive OpX where
   | read (ino : Inode) (offset size : Nat)
   | frag (ino : Inode)
   /-- one `get_buffered_data` + `advance_buffer(count)` on a stream (the stream object is the caller's) -/
@@ -355,12 +367,16 @@ inductive Op where
   /-- `sqfs_data_reader_load_fragment_table` finding table `tbl` in the image -/
   | reload (tbl : Except Status (List (Nat × Nat)))
 
-def step (kw sfix : Bool) (f : File) (unc : Codec) (d : DR) : Op → DR
+def stepX (kw sfix : Bool) (f : File) (unc : Codec) (d : DR) : OpX → DR
   | .read ino o n => (read kw f unc d ino o n).2
   | .frag ino => (getFragment f unc d ino).2
   | .sget s _ => (streamGet sfix f unc d s).2.2
   | .reload t => reload d t
 
-def run (kw sfix : Bool) (f : File) (unc : Codec) (d : DR) (h : List Op) : DR := h.foldl (step kw sfix f unc) d
+def runX (kw sfix : Bool) (f : File) (unc : Codec) (d : DR) (h : List OpX) : DR := h.foldl (stepX kw sfix f unc) d
+
+/-- a read-only history as an extended one -/
+def Op.toX : Op → OpX
+  | .read ino o n => .read ino o n
 
 end Sqfs.DataReader
